@@ -691,6 +691,15 @@ def prepare_live(sc, rng):
         sc["live"] = decorate_obj(body, rng)
     elif mode == "drift":
         sc["live"], sc["drift_path"] = drift_obj(body, rng)
+    elif mode == "drift_meta":
+        # the ONLY deviation lies under metadata (a label the target specifies)
+        labels = body.get("metadata", {}).get("labels") if isinstance(body.get("metadata"), dict) else None
+        if isinstance(labels, dict) and labels:
+            k = sorted(labels)[0]
+            labels[k] = "drifted" if labels[k] != "drifted" else "drifted2"
+            sc["live"], sc["drift_path"] = body, ["metadata", "labels", k]
+        else:
+            sc["live"], sc["drift_path"] = drift_obj(body, rng)
     elif mode == "noowner":
         body.get("metadata", {}).pop("ownerReferences", None)
         sc["live"] = body
